@@ -111,10 +111,10 @@ func DigitsSign10[T Integer](v T) int {
 // to all orders of 10, making it increadibly faster than calculating logaritms
 // or by performing divisions.
 func Digits10[T Integer](v T) int {
-	if v < 0 {
-		v = -v
-	}
 	n := uint64(v)
+	if v < 0 {
+		n = -n
+	}
 	switch {
 	case n < 10:
 		return 1
